@@ -18,13 +18,20 @@ A simulation is described by a plain (JSON-able) dict::
      "restarts": [{"number": r, "its": [iterations written],
                    # optional: this restart ran on another process count (as in
                    # aurel's own fixtures): its own cuts / file layout, same grids
-                   "levels": [{"decomp": ..., "order": ...}, ...], "per_proc": bool}, ...],
+                   "levels": [{"decomp": ..., "order": ...}, ...], "per_proc": bool,
+                   # optional: Carpet checkpoint files written by this restart
+                   # (checkpoint.chkpt.it_<it>[.file_<c>].h5; all levels, all written
+                   # variables, `ntl` time levels of which only tl=0 is the state)
+                   "checkpoints": {"its": [...], "per_proc": bool, "ntl": 1..3,
+                                   "extra": bool}}, ...],   # extra: unrelated datasets
      "par_in": r}               # restart directory that holds the .par file
 
 Every interior value of every dataset is an exact integer-valued float that
 encodes (variable, iteration, level, restart, x, y, z); ghost layers hold
 distinct negative junk.  `Sim.truth(var, it, rl, restart)` is the array that a
-correct reader returns, in (x, y, z) order.
+correct reader returns, in (x, y, z) order.  Checkpoint files hold the same
+fields with the restart digit shifted by `CHK` (so that data taken from a
+checkpoint can be told from 3D output) and the time shifted by `CHK_TIME`.
 
 The variable table below is written by hand from the Einstein Toolkit thorn
 documentation, *not* read from aurel's var_mappings.yml: it is the independent
@@ -78,6 +85,8 @@ for _v, (_t, _e, _g) in VARS.items():
 NX = 64          # radix of the coordinates
 NIT = 4096       # radix of the iteration
 NR = 8           # radix of the restart number
+CHK = 4          # restart digit of checkpoint data = restart + CHK (restarts < 4)
+CHK_TIME = 500.0
 
 
 def components(name):
@@ -159,14 +168,29 @@ class Sim:
         self.simdir = os.path.join(self.root, self.name)
 
     # ---------------------------------------------------------------- truth
-    def truth(self, var, it, rl, restart):
+    def truth(self, var, it, rl, restart, checkpoint=False):
         nx, ny, nz = self.desc["levels"][rl]["shape"]
         x, y, z = np.meshgrid(np.arange(nx), np.arange(ny), np.arange(nz), indexing="ij")
-        return code(var, it, rl, restart, x, y, z).astype(np.float64)
+        return code(var, it, rl, restart + (CHK if checkpoint else 0), x, y, z).astype(np.float64)
 
     @staticmethod
-    def time(it, restart):
-        return it / 4.0 + 1000.0 * restart
+    def time(it, restart, checkpoint=False):
+        return it / 4.0 + 1000.0 * restart + (CHK_TIME if checkpoint else 0.0)
+
+    def checkpoint_its(self, restart):
+        for r in self.desc["restarts"]:
+            if r["number"] == restart:
+                return list(r.get("checkpoints", {}).get("its", []))
+        return []
+
+    def checkpoint_restart_of(self, it, skip_last=False):
+        """the restart a reader must take checkpoint iteration `it` from with
+        restart=-1: the latest one that wrote a checkpoint at it (None if none)."""
+        best = None
+        for n in self.restart_numbers(skip_last):
+            if it in self.checkpoint_its(n) and (best is None or n > best):
+                best = n
+        return best
 
     def restart_numbers(self, skip_last=False):
         rs = sorted(r["number"] for r in self.desc["restarts"])
@@ -266,7 +290,65 @@ class Sim:
             finally:
                 for f in handles.values():
                     f.close()
+            if r.get("checkpoints"):
+                self.write_checkpoints(r)
         return self
+
+    def level_of(self, r, rl):
+        lev = self.desc["levels"][rl]
+        if "levels" in r:
+            lev = dict(lev, **r["levels"][rl])
+        return lev
+
+    def checkpoint_datasets(self, r, it):
+        """{file name: [(key, block, attrs)]} of the checkpoint restart `r` wrote at `it`"""
+        d = self.desc
+        ck = r["checkpoints"]
+        per_proc = ck.get("per_proc", r.get("per_proc", d["per_proc"]))
+        out = {}
+        for rl in range(len(d["levels"])):
+            lev = self.level_of(r, rl)
+            chunks = canonical_chunks(lev["decomp"])
+            n = len(chunks)
+            for j, ch in enumerate(chunks):
+                c = lev["order"][j]
+                fn = "checkpoint.chkpt.it_%d%s.h5" % (it, ".file_%d" % c if per_proc else "")
+                lst = out.setdefault(fn, [])
+                tail = "%s rl=%d%s" % (" m=0" if d["m0"] else "", rl, " c=%d" % c if n > 1 else "")
+                iorigin = [lev["base"][0] + ch[0], lev["base"][1] + ch[1], lev["base"][2] + ch[2]]
+                names = [VARS[v][:2] + (v,) for v in self.written_vars()]
+                if ck.get("extra"):
+                    # evolved variables of other thorns that aurel is not asked for
+                    names += [("ML_BSSN", "phi", None), ("GRHYDRO", "dens", None)]
+                for thorn, ev, v in names:
+                    for tl in range(ck.get("ntl", 1)):
+                        if v is not None and tl == 0:
+                            blk = self.raw_block(v, it, rl, r["number"] + CHK, ch, c)
+                        else:
+                            # past time levels / other variables: distinct junk of the same shape
+                            blk = -(7.0e8 + 1.0e6 * tl + self.raw_block(self.written_vars()[0], it, rl, 0, ch, c) % 1.0e6)
+                        attrs = {"cctk_nghostzones": np.array(lev["ghost"], dtype=np.int32),
+                                 "iorigin": np.array(iorigin, dtype=np.int32),
+                                 "time": np.float64(self.time(it, r["number"], True) - 0.25 * tl),
+                                 "level": np.int32(rl), "timestep": np.int32(it),
+                                 "name": np.bytes_("%s::%s" % (thorn, ev))}
+                        lst.append(("%s::%s it=%d tl=%d%s" % (thorn, ev, it, tl, tail), blk, attrs))
+        if ck.get("extra"):
+            # a grid scalar (no rl=, no c=) in the file of process 0 / the single file
+            first = sorted(out)[0]
+            out[first].append(("CARPET::timing_total it=%d tl=0" % it, np.array([1.5]), {"time": np.float64(-1.0)}))
+        return out
+
+    def write_checkpoints(self, r):
+        out = self.outdir(r["number"])
+        for it in r["checkpoints"]["its"]:
+            for fn, dsets in self.checkpoint_datasets(r, it).items():
+                with h5py.File(os.path.join(out, fn), "w") as f:
+                    f.create_group("Parameters and Global Attributes")
+                    for key, blk, attrs in dsets:
+                        ds = f.create_dataset(key, data=blk)
+                        for a, val in attrs.items():
+                            ds.attrs[a] = val
 
     def parfile(self):
         d = self.desc
@@ -380,3 +462,19 @@ def random_desc(rng, name, per_proc=None, grouped=None, nlevels=None, nrest=None
     return {"name": name, "per_proc": per_proc, "grouped": grouped, "m0": rng.random() < 0.3, "vars": vars_,
             "levels": levels, "restarts": restarts, "par_in": rng.choice([r["number"] for r in restarts]),
             "requests": req}
+
+
+def add_random_checkpoints(rng, desc, prob=0.8):
+    """give (most) restarts checkpoint files: a random subset of their iterations plus,
+    often, the iteration the next restart starts from (so that the same checkpoint
+    iteration can exist in two restarts)."""
+    for r in desc["restarts"]:
+        if rng.random() >= prob:
+            continue
+        its = sorted(rng.sample(r["its"], rng.randint(1, len(r["its"]))))
+        counts = {len(x["order"]) for x in r["levels"]} if "levels" in r else \
+            {nchunks(lv["decomp"]) for lv in desc["levels"]}
+        multi = len(counts) == 1 and min(counts) >= 2
+        r["checkpoints"] = {"its": its, "per_proc": multi and rng.random() < 0.6, "ntl": rng.randint(1, 3),
+                            "extra": rng.random() < 0.5}
+    return desc
